@@ -228,6 +228,9 @@ func judge(c engine.Case) engine.Outcome {
 				}
 				if sum == "" && len(diags) > 0 {
 					sum = "text-writer:" + diags[0].Summary
+					if tw := textWriterClass(leak); tw != "" {
+						sum = tw
+					}
 				}
 				return engine.Fail("c19.leak."+slug(sum), "source: %s\nvariable %s = canary placement %d (marked)\n%s", d.Src, name, pi, leak)
 			}
@@ -241,6 +244,41 @@ func judge(c engine.Case) engine.Outcome {
 		return engine.Pass("")
 	}
 	return engine.Pass(strings.Join(dedup(sums), "|"))
+}
+
+// textWriterClass recognises the text writer's "with NAME as VALUE" summary
+// line: when the leaked value is that of a name bound by a for expression /
+// directive (not a variable of the scope), every such leak is one defect.
+func textWriterClass(leak string) string {
+	i := strings.Index(leak, "with ")
+	for i >= 0 {
+		rest := leak[i+5:]
+		j := strings.Index(rest, " as ")
+		if j < 0 || j > 40 {
+			break
+		}
+		name := rest[:j]
+		lineEnd := strings.Index(rest, `\n`)
+		if lineEnd < 0 {
+			lineEnd = len(rest)
+		}
+		if scan("", rest[:lineEnd]) != "" {
+			root := name
+			if k := strings.IndexAny(root, ".["); k >= 0 {
+				root = root[:k]
+			}
+			if _, isPool := pool.Vars[root]; !isPool {
+				return "text-writer-value-of-iteration-variable"
+			}
+			return "text-writer-value-of-scope-variable"
+		}
+		n := strings.Index(rest, "with ")
+		if n < 0 {
+			break
+		}
+		i = i + 5 + n
+	}
+	return ""
 }
 
 func dedup(a []string) []string {
